@@ -54,7 +54,7 @@ theorem C15_same_for_both_roles {σ : Type} (IO : SymIO σ) (w : World σ) (sid 
     (h1 : w.ses.get sid = some s) (hc : s.codec = 3) (hp : s'.params = s.params) (he : s'.extra = s.extra) (hc' : s'.codec = 3)
     (ht : s'.twoD = s.twoD) :
     (step IO w (.ctrl sid "lastnull")).2 = (step IO { w with ses := w.ses.set sid (some s') } (.ctrl sid "lastnull")).2 := by
-  cases htd : s.twoD <;> simp [step, h1, hc, hc', hp, he, ht, htd, TMap.get_set_same]
+  cases htd : s.twoD <;> cases hpar : s.params <;> simp [step, h1, hc, hc', hp, he, ht, htd, hpar, TMap.get_set_same]
 
 -- non-vacuity: k = 2, n = 6, N1 = 4: every source symbol is in all four equations; the check passes
 example : lastNullCheck 6 [[0, 1, 2], [0, 1, 2, 3], [0, 1, 3, 4], [0, 1, 4, 5]] = true := by decide
